@@ -13,7 +13,8 @@ PROP = dict(
          "encoding, fork-bomb DAGs <= 10^5 unfolded cells, chains 100..1500 cells deep, malformed exotic cells (kept "
          "apart)}; seeds from tlb.Marshal of reflect-generated values, from subtrees of the repository's real blocks and "
          "from hand-built VM tuples; abi message decoders; account-state / block-header proof decoders on damaged real "
-         "proofs; GetTransactions against an in-process lite server. "
+         "proofs; the ~120 get-method result decoders (abi.KnownGetMethodsDecoder) on VM stacks of the right shape with hostile "
+         "contents; GetTransactions against an in-process lite server. "
          "non-trivial = distinct (type, malformed input) for explicit lines, distinct (type, stream, seed) batch for the "
          "seeded TL-B streams (a batch line stands for up to 50 inputs regenerated from its seed)",
     trusted_base=[
@@ -75,7 +76,8 @@ PROP = dict(
         "class, bytes consumed, allocation class for TL; decoded keys / data / counts for the TL-B customs; helper "
         "outcomes). "
         "ORACLES ONLY (no theorem): the reflection-driven TL-B decoder over all ~930 exported types and the unmodelled "
-        "customs, the abi message decoders, the proof decoders: ~100 (quick) / ~3000 (thorough) damaged trees per type, "
+        "customs, the abi message decoders and get-method result decoders (VmStack / VmStackValue / VmStkTuple.Unmarshal reflection "
+        "glue), the proof decoders: ~100 (quick) / ~3000 (thorough) damaged trees per type, "
         "never a panic or fatal error, TotalAlloc <= 64*|unfolded tree| + 1 MiB, deadline proportional to the unfolded "
         "tree. Types without any valid seed encoding are listed in the evidence (distribution no_valid_seed:*)."
     ),
